@@ -48,6 +48,10 @@ fn int_ops() {
     let defined = y != 0 && !(x == i64::MIN && y == -1);
     vnd_check(1004, if defined { int_of(&m) == Some(x % y) } else { match m { Data::Error(_) => true, Data::Integer(v) => y == -1 && v == 0, _ => false } });
     vnd_check(1005, match operation_equal(&a, &b) { Data::Boolean(r) => r == (x == y), _ => false });
+    // comparisons of two Integers are exact for every pair
+    let cmp_ok = |d: Data, want: bool| -> bool { match d { Data::Boolean(r) => r == want, _ => false } };
+    vnd_check(1006, cmp_ok(operation_less(&a, &b), x < y) && cmp_ok(operation_less_equal(&a, &b), x <= y)
+        && cmp_ok(operation_greater(&a, &b), x > y) && cmp_ok(operation_greater_equal(&a, &b), x >= y));
     vnd_obs(1, int_of(&operation_plus(&a, &b)).unwrap_or(0) as u64);
 }
 
@@ -168,8 +172,13 @@ fn data_eq(r: &ExpressionResult, d: &Data) -> bool { match r { Ok(v) => { let x 
 
 /// catalogue of concrete expressions covering the documented semantics (mixed types, comparison, logic, aggregation, member / index access, whitespace and parentheses)
 fn mixed_catalogue() {
-    let k = vnd_conc(vnd_range(0, 27, 1), 27);
+    let k = vnd_conc(vnd_range(0, 31, 1), 31);
     let (t, want): (&str, Data) = match k {
+        // comparisons of Integers beyond 2^53 (exact, not through f64)
+        28 => ("9007199254740993 > 9007199254740992", Data::Boolean(true)),
+        29 => ("9223372036854775806 < 9223372036854775807", Data::Boolean(true)),
+        30 => ("9007199254740993 <= 9007199254740992", Data::Boolean(false)),
+        31 => ("9007199254740992 >= 9007199254740993", Data::Boolean(false)),
         0 => ("10 - 4 - 3", Data::Integer(3)),
         1 => ("8 - 3 + 1", Data::Integer(6)),
         2 => ("100 / 10 / 5", Data::Double(2.0)),
@@ -280,8 +289,10 @@ fn alias_no_deadlock() {
       gd.data.set_undefined("a".to_string(), Data::Integer(vnd_i64(1)));
       gd.data.set_undefined("arr".to_string(), Data::Array(vec![create_data_arc(Data::Integer(0)), create_data_arc(Data::Integer(1))]));
       gd.data.set_undefined("m".to_string(), Data::Map(std::collections::HashMap::new())); }
-    let k = vnd_conc(vnd_range(0, 15, 2), 15);
+    let k = vnd_conc(vnd_range(0, 19, 2), 19);
     let text = match k {
+        // one operand nested inside the other one: the comparison reaches a value that the evaluation already holds
+        16 => "arr == [arr]", 17 => "[arr] != arr", 18 => "m == {'k': m}", 19 => "arr == [arr, arr]",
         0 => "a = a", 1 => "a ?= a", 2 => "a + a", 3 => "a == a", 4 => "arr[arr[0]]", 5 => "arr = arr", 6 => "a = a + a", 7 => "arr + arr", 8 => "m = m",
         9 => "arr[arr]", 10 => "m[m]", 11 => "a * a - a", 12 => "arr[0] = arr[0]", 13 => "m.x ?= m", 14 => "[a, a][0] + a",
         _ => "a = a = a",
